@@ -155,7 +155,23 @@ def _numeric_string_variant(diff_line):
             return {k: conv(x) for k, x in v.items()}
         return v
 
-    return RX.canon(conv(w)) == RX.canon(g) and RX.canon(w) != RX.canon(g)
+    used = [0]
+
+    def match(gv, wv):
+        # every position either agrees or holds the number a numeric-looking string was printed as (other strings in the
+        # same default - declared String / ID - legitimately stay strings)
+        if isinstance(wv, list):
+            return isinstance(gv, list) and len(gv) == len(wv) and all(match(a, b) for a, b in zip(gv, wv))
+        if isinstance(wv, dict):
+            return isinstance(gv, dict) and sorted(gv) == sorted(wv) and all(match(gv[k], wv[k]) for k in wv)
+        if RX.canon(gv) == RX.canon(wv):
+            return True
+        if isinstance(wv, str) and not isinstance(gv, str) and RX.canon(conv(wv)) == RX.canon(gv):
+            used[0] += 1
+            return True
+        return False
+
+    return match(g, w) and used[0] > 0
 
 
 def _default_class(schema, type_str, txt):
@@ -210,6 +226,10 @@ def check_case(case, ctx=None):
         try:
             resp = run_intro(schema, config, introspection_query(), case["schedule"])
         except Exception as e:  # noqa
+            if "VARIABLE_DEFINITION" in str(e) and "__DirectiveLocation" in str(e) and any(
+                    "VARIABLE_DEFINITION" in d["locations"] for d in spec.get("directives", [])):
+                vios.append(("C15/introspection-raises/location-VARIABLE_DEFINITION-missing-from-__DirectiveLocation", "config=%s: %r" % (config, e)))
+                continue
             vios.append(("C15/introspection-raises/%s@%s" % (type(e).__name__, H.frame_of(e)), "config=%s: %r" % (config, e)))
             continue
         if resp.get("errors"):
@@ -250,6 +270,16 @@ def check_case(case, ctx=None):
                 vios.append(("C15/deprecation-flags-differ/%s" % member, "type=%s rows=%r" % (tn, rows[:3])))
             if ctx is not None:
                 ctx.event("includeDeprecated-query")
+    # a name the schema does not have: "exactly the schema" means null, not a failed request
+    if case["type_queries"]:
+        missing = case["type_queries"][0] + "_NoSuchType"
+        try:
+            resp = run_intro(schema, "blocking-executor", '{ __type(name: "%s") { name kind } }' % missing, [])
+        except Exception as e:  # noqa
+            vios.append(("C15/__type-of-unknown-name-raises/%s" % type(e).__name__, repr(e)))
+        else:
+            if resp.get("errors") or (resp.get("data") or {"__type": 1}).get("__type") is not None:
+                vios.append(("C15/__type-of-unknown-name-not-null", repr(resp)[:200]))
     # disable_introspection
     probe = case.get("probe")
     if probe:
@@ -292,10 +322,20 @@ def _has_typename(d):
     return False
 
 
+ALL_LOCATIONS = ["QUERY", "MUTATION", "SUBSCRIPTION", "FIELD", "FRAGMENT_DEFINITION", "FRAGMENT_SPREAD", "INLINE_FRAGMENT",
+                 "VARIABLE_DEFINITION", "SCHEMA", "SCALAR", "OBJECT", "FIELD_DEFINITION", "ARGUMENT_DEFINITION", "INTERFACE", "UNION",
+                 "ENUM", "ENUM_VALUE", "INPUT_OBJECT", "INPUT_FIELD_DEFINITION"]
+
+
 @st.composite
 def cases(draw, thorough=False):
     spec = draw(GS.specs(rich=True, with_subscription=draw(st.integers(0, 3)) == 0))
-    spec["directives"] = [{"name": "cd", "locations": ["FIELD", "QUERY"], "desc": draw(GS._DESC),
+    locs = ["FIELD", "QUERY"]
+    if draw(st.booleans()):
+        # any of the locations a Directive accepts (VARIABLE_DEFINITION seldom: known finding, the request then fails as a whole)
+        pool = [l for l in ALL_LOCATIONS if l != "VARIABLE_DEFINITION" or draw(st.integers(0, 3)) == 0]
+        locs = draw(st.lists(st.sampled_from(pool), min_size=1, max_size=6, unique=True))
+    spec["directives"] = [{"name": "cd", "locations": locs, "desc": draw(GS._DESC),
                            "args": [{"name": "n", "type": "Int", "default": 1, "desc": "count"}, {"name": "s", "type": "[String!]", "default": ["a", "q\"uote", "back\\slash", "line\nbreak"]}]}]
     mode = draw(st.sampled_from(["code", "sdl"]))
     eff = H.sdl_view(spec) if mode == "sdl" else spec
